@@ -1,9 +1,39 @@
 import RefurbVerif.Wire.Basic
+import RefurbVerif.Model.Tree
+import RefurbVerif.Generated.Edges
 open Lean
 
 namespace RefurbVerif.Wire
 
-/-- driver verbs of this group (filled in by the property that owns it) -/
-def handleTree (_verb : String) (_j : Json) : Option Json := none
+mutual
+partial def toTree (j : Json) : Tree :=
+  .node (str j "kind") (nat j "id") (toForest (arr j "kids"))
+partial def toForest : List Json → Forest
+  | [] => .nil
+  | kv :: rest =>
+    match kv with
+    | .arr #[.str f, c] =>
+      -- `{"dup": id}` marks a child that was already serialised elsewhere (shared object): skipped
+      match c.getObjVal? "dup" with
+      | .ok _ => toForest rest
+      | .error _ => .cons f (toTree c) (toForest rest)
+    | _ => toForest rest
+end
+
+def pairsJ (l : List (String × Nat)) : Json := Json.arr (l.map (fun p => Json.arr #[Json.str p.1, p.2])).toArray
+
+def dispatchOf (k : String) : List String :=
+  ((Generated.dispatch.find? (fun e => e.1 == k)).map (·.2)).getD [k]
+
+/-- verbs: walk (tree -> visit sequence under the generated refurb edge table, and the node list) -/
+def handleTree (verb : String) (j : Json) : Option Json :=
+  match verb with
+  | "walk" =>
+    let t := toTree (obj j "tree")
+    some (Json.mkObj [
+      ("walk", pairsJ (walk (edgesOf Generated.refurbEdges) t)),
+      ("nodes", pairsJ (nodes t)),
+      ("calls", pairsJ (calls (edgesOf Generated.refurbEdges) dispatchOf (fun _ => true) t))])
+  | _ => none
 
 end RefurbVerif.Wire
